@@ -424,6 +424,10 @@ func (a *Aggregate) finish(start time.Time, outDir string, replay bool) int {
 	if len(a.Inconcl) > 0 {
 		return 2
 	}
+	if len(a.Samples) == 0 {
+		fmt.Println("BROKEN: the check recorded no sample of the cases it explored")
+		return 3
+	}
 	if a.Evals < int64(minEv) || len(a.Hashes) < 2 {
 		fmt.Printf("BROKEN: the monitors observed too little (evaluations=%d, need >=%d; distinct non-trivial=%d)\n", a.Evals, minEv, len(a.Hashes))
 		return 3
